@@ -1,80 +1,328 @@
-"""Which models, case sources and failure tags decide which property."""
+"""Which TLC models, case sources and failure tags decide which property.
 
-DEC_ACTIONS_MSG = ["Flags", "Version", "Reserved", "Dispatch"]
-DEC_ACTIONS_CTL = ["CtlUnused", "CtlBits", "CtlHeader", "CtlLength", "CtlCarve", "CtlFirst", "CtlCollect"]
-DEC_ACTIONS_AVP = ["AvpHeader", "AvpLength", "AvpVendor", "AvpHidden", "AvpType", "AvpMin", "AvpField"]
-DEC_ACTIONS_DATA = ["DataMin", "DataFields", "DataOffset", "DataSkip", "DataExtent", "DataPayload"]
+MC_MODELS   name -> module / cfg in spec/mc, the program counters its exported behaviours must visit
+            (vacuity check), thorough_only / quick_only flags
+PROPS       property -> models, generator suites, evidence text
+catalog_cases(prop, model, behaviours)  behaviours exported by a model -> cases for the real crate
+owns(prop, event, tag)  does failure `tag` on `event` contradict `prop`?
+"""
+
+PC_MSG = ["flags", "version", "reserved", "dispatch"]
+PC_CTL = ["c_unused", "c_bits", "c_hdr", "c_len", "c_carve", "c_first", "c_collect"]
+PC_AVP = ["a_hdr", "a_len", "a_vendor", "a_hidden", "a_type", "a_min", "a_field"]
+PC_DATA = ["d_min", "d_fields", "d_offset", "d_skip", "d_extent", "d_payload"]
+PC_ENC_CTL = ["m_start", "m_len", "m_hdr", "a_next", "a_vendor", "a_body", "a_patch", "m_patch"]
+PC_REVEAL = ["r_kind", "r_empty", "r_align", "r_decrypt", "r_len", "r_fit", "r_payload"]
+
+
+def dec(family, pcs, **kw):
+    d = {"module": "MCDecoder.tla", "cfg": "MCDecoder_%s.cfg" % family, "expect_pcs": pcs}
+    d.update(kw)
+    return d
+
 
 MC_MODELS = {
-    "dec_framing": {"module": "MCDecoder.tla", "cfg": "MCDecoder_framing.cfg",
-                    "expect_actions": DEC_ACTIONS_MSG + DEC_ACTIONS_CTL + DEC_ACTIONS_DATA + ["AvpHeader", "AvpField"]},
-    "dec_ctllen": {"module": "MCDecoder.tla", "cfg": "MCDecoder_ctllen.cfg",
-                   "expect_actions": DEC_ACTIONS_MSG + DEC_ACTIONS_CTL + ["AvpHeader", "AvpLength", "AvpField"]},
-    "dec_avprec": {"module": "MCDecoder.tla", "cfg": "MCDecoder_avprec.cfg",
-                   "expect_actions": DEC_ACTIONS_CTL + DEC_ACTIONS_AVP + ["GreedyDone"]},
-    "dec_kinds": {"module": "MCDecoder.tla", "cfg": "MCDecoder_kinds.cfg",
-                  "expect_actions": DEC_ACTIONS_AVP + ["GreedyDone"]},
-    "dec_loop3": {"module": "MCDecoder.tla", "cfg": "MCDecoder_loop3.cfg",
-                  "expect_actions": DEC_ACTIONS_CTL + DEC_ACTIONS_AVP + ["GreedyDone"]},
-    "dec_loop4": {"module": "MCDecoder.tla", "cfg": "MCDecoder_loop4.cfg", "thorough_only": True,
-                  "expect_actions": DEC_ACTIONS_CTL + DEC_ACTIONS_AVP + ["GreedyDone"]},
-    "dec_data": {"module": "MCDecoder.tla", "cfg": "MCDecoder_data.cfg",
-                 "expect_actions": DEC_ACTIONS_MSG + DEC_ACTIONS_DATA},
+    "dec_framing": dec("framing", PC_MSG + PC_CTL + PC_DATA + ["a_hdr", "a_field"]),
+    "dec_ctllen": dec("ctllen", PC_MSG + PC_CTL + ["a_hdr", "a_len", "a_field"]),
+    "dec_avprec": dec("avprec", PC_CTL + PC_AVP + ["g_done"]),
+    "dec_kinds": dec("kinds", ["a_hdr", "a_len", "a_type", "a_min", "a_field", "g_done"]),
+    "dec_loop3": dec("loop3", PC_CTL + PC_AVP + ["g_done"], quick_only=True),
+    "dec_loop4": dec("loop4", PC_CTL + PC_AVP + ["g_done"], thorough_only=True),
+    "dec_data": dec("data", PC_MSG + PC_DATA),
+    "dec_flagsq": dec("flagsq", PC_MSG + ["c_unused", "c_collect", "d_payload"], quick_only=True),
+    "dec_flagsall": dec("flagsall", PC_MSG + ["c_unused", "c_collect", "d_payload"], thorough_only=True, timeout=3000),
+    "enc_avps": {"module": "MCEncoder.tla", "cfg": "MCEncoder_avps.cfg", "expect_pcs": ["a_next", "a_vendor", "a_body", "a_patch"]},
+    "enc_msgs": {"module": "MCEncoder.tla", "cfg": "MCEncoder_msgs.cfg", "expect_pcs": PC_ENC_CTL + ["d_write"]},
+    "enc_sizes": {"module": "MCEncoder.tla", "cfg": "MCEncoder_sizes.cfg", "expect_pcs": PC_ENC_CTL,
+                  "expect_replay": {"avp-refused": lambda r: r["panic"] and r["kind"] == "avp",
+                                    "avp-at-limit": lambda r: (not r["panic"]) and r["kind"] == "avp"}},
+    "enc_huge": {"module": "MCEncoder.tla", "cfg": "MCEncoder_huge.cfg", "expect_pcs": PC_ENC_CTL, "thorough_only": True,
+                 "expect_replay": {"message-refused": lambda r: r["panic"], "message-at-limit": lambda r: not r["panic"]}},
+    "hid_hide": {"module": "MCHiding.tla", "cfg": "MCHiding_hide.cfg", "expect_pcs": PC_REVEAL},
+    "hid_reveal": {"module": "MCHiding.tla", "cfg": "MCHiding_reveal.cfg", "expect_pcs": PC_REVEAL,
+                   "expect_replay": {"accepted": lambda r: r["res"] == "ok", "rejected": lambda r: r["res"] == "err"}},
+    "reader_q": {"module": "MCReader.tla", "cfg": "MCReader_q.cfg", "quick_only": True,
+                 "expect_pcs": ["op:read", "op:skip", "op:sub", "op:bytes"]},
+    "reader_t": {"module": "MCReader.tla", "cfg": "MCReader_t.cfg", "thorough_only": True,
+                 "expect_pcs": ["op:read", "op:skip", "op:sub", "op:bytes"]},
+    "writer_q": {"module": "MCWriter.tla", "cfg": "MCWriter_q.cfg", "quick_only": True, "expect_pcs": ["op:bytes", "op:at"]},
+    "writer_t": {"module": "MCWriter.tla", "cfg": "MCWriter_t.cfg", "thorough_only": True, "expect_pcs": ["op:bytes", "op:at"]},
+    "session_q": {"module": "MCSession.tla", "cfg": "MCSession_q.cfg", "quick_only": True,
+                  "expect_replay": {"complete": lambda r: len(r["bufs"]) == 2}},
+    "session_t": {"module": "MCSession.tla", "cfg": "MCSession_t.cfg", "thorough_only": True, "timeout": 3000,
+                  "expect_replay": {"complete": lambda r: len(r["bufs"]) == 2}},
+    "enums": {"module": "MCEnums.tla", "cfg": "MCEnums.cfg"},
 }
 
-DEC_MODELS = ["dec_framing", "dec_ctllen", "dec_avprec", "dec_kinds", "dec_loop3", "dec_data"]
+DEC_MODELS = ["dec_framing", "dec_ctllen", "dec_avprec", "dec_kinds", "dec_loop3", "dec_loop4", "dec_data"]
+ENC_MODELS = ["enc_avps", "enc_msgs", "enc_sizes", "enc_huge"]
 
-DECODE_EVENTS = ("decode", "decode_avps", "decode_payload", "decode_seq")
+DECODE_EVENTS = ("decode", "decode_avps", "decode_payload", "decode_seq", "decode_opts", "decode_suffix", "avps_concat")
 DIED = ("outcome-panic", "outcome-abort", "outcome-timeout")
+
+COMMON_ASSUMPTIONS = [
+    "the TLA+ specification in /verif/spec is the reference semantics (checked internally by TLC: invariants, "
+    "encode/decode cross-checks, RFC 1321 vectors)",
+    "a change to the crate is detected when some explored input reaches it",
+]
 
 PROPS = {
     "C01": {
         "mc": DEC_MODELS, "gen": ["decode", "avps", "payload"],
         "rule": "TLC-explored boundary grammars of the decoder machine (every run exported and replayed) + seeded "
-                "random/mutated/raw inputs; distinct = distinct (operation, input, options) cases",
-        "assumptions": ["inputs <= 2 KiB except targeted cases", "per-case watchdog 20 s (quick) / 60 s (thorough)"],
+                "random / mutated / raw inputs through both entry points, the bare AVP list reader and the per-type "
+                "readers, in a dev build (overflow checks, debug assertions) and a release build, under catch_unwind "
+                "with abort detection and a watchdog; distinct = distinct (operation, input, options) cases",
+        "assumptions": COMMON_ASSUMPTIONS + ["inputs up to 2 KiB except targeted cases", "per-case watchdog 20 s (quick) / 60 s (thorough)"],
     },
     "C02": {
         "mc": DEC_MODELS, "gen": ["decode_readers", "avps_readers", "payload_readers"], "readers": "all",
-        "rule": "as C01, every input decoded through SliceReader, a monitoring reader that logs each request, and a "
-                "queue-backed reader; requests validated against the Reader contract machine",
-        "assumptions": ["undefined behaviour inside SliceReader is observed only through its contract (C18) and "
-                        "std's debug precondition checks in the dev build"],
+        "rule": "as C01, every input decoded through SliceReader, a monitoring reader that logs each request with the "
+                "octets remaining, and a queue-backed reader; every logged request validated against the Reader contract "
+                "machine; the three outcomes must coincide",
+        "assumptions": COMMON_ASSUMPTIONS + ["undefined behaviour inside SliceReader is observed only through its contract (C18) "
+                                             "and std's debug precondition checks in the dev build",
+                                             "reveal() builds its own SliceReader, so only its requests' bounds (C13) apply there"],
+    },
+    "C03": {
+        "mc": ["enc_avps", "enc_msgs", "enc_sizes", "enc_huge"], "gen": ["roundtrip_ctl"],
+        "rule": "value catalogue explored by TLC on the Encoder machine with the specification's decoder applied to the "
+                "result (RoundTrip invariant), each behaviour replayed; seeded random control messages (0..12 AVPs) and "
+                "AVPs of all 40 variants with boundary sizes of the variable parts, up to 65 535-octet messages",
+        "assumptions": COMMON_ASSUMPTIONS,
+    },
+    "C04": {
+        "mc": ["enc_msgs", "dec_data"], "gen": ["roundtrip_data"],
+        "rule": "the complete product ids x Ns/Nr x priority x length {absent, exact} x offset {absent, 0, 1, |data|-1} x "
+                "|data| {1,2,17} plus seeded random data messages (payload up to 60 000 octets)",
+        "assumptions": COMMON_ASSUMPTIONS,
     },
     "C05": {
-        "mc": DEC_MODELS, "gen": ["decode", "avps", "payload"],
-        "rule": "as C01; every outcome compared with the specification's decode of the same octets",
-        "assumptions": [],
+        "mc": DEC_MODELS + ["dec_flagsq"], "gen": ["decode", "avps", "payload", "flags", "ignored"],
+        "rule": "every decode outcome (verdict, value field for field, per-record results) compared with the TLA+ "
+                "decoder's result for the same octets: TLC boundary grammars, flag words under all option sets, seeded "
+                "random / mutated / raw inputs, and pairs differing only in octets the specification ignores",
+        "assumptions": COMMON_ASSUMPTIONS,
+    },
+    "C06": {
+        "mc": ENC_MODELS, "gen": ["encode", "encode_seq"],
+        "rule": "octets emitted for the TLC value catalogue and for seeded random values (all AVP variants, control and "
+                "data messages, in and out of the round-trip domain) compared octet for octet with the TLA+ encoder",
+        "assumptions": COMMON_ASSUMPTIONS,
+    },
+    "C07": {
+        "mc": ["enc_sizes", "enc_avps", "enc_huge"], "gen": ["encode", "encode_seq"],
+        "rule": "size boundaries of the 10-bit AVP length (values of 1015..1019, 2000 octets) and of the 16-bit message "
+                "length (65 534..65 536 octets), plus seeded random values; panic iff the specification's encoder refuses; "
+                "an independent walk over the emitted length fields; get_length against the emitted size",
+        "assumptions": COMMON_ASSUMPTIONS,
+    },
+    "C08": {
+        "mc": ["dec_framing", "dec_ctllen", "dec_data", "dec_loop3", "dec_loop4", "session_q", "session_t"],
+        "gen": ["decode_seq", "suffix", "concat", "decode"],
+        "rule": "remaining length after every accepted decode; 1..4 messages back to back in one reader; (b, b++suffix) "
+                "pairs; AVP record concatenations against the records alone; TLC: SuffixIndependent on every accepted run, "
+                "BackToBack / AtBoundary on the session machine",
+        "assumptions": COMMON_ASSUMPTIONS,
+    },
+    "C09": {
+        "mc": ["enc_avps", "enc_msgs", "enc_sizes", "session_q", "session_t"], "gen": ["encode", "encode_seq"],
+        "rule": "encodes into writers pre-filled with 0..300 octets (VecWriter and a monitoring writer that logs every "
+                "append and positional overwrite), sequences of 1..5 values into one writer; TLC: OnlyAppend / "
+                "PatchInsideFrame / AppendOrPatch on the Encoder machine, WriterIsConcat on the session machine",
+        "assumptions": COMMON_ASSUMPTIONS,
+    },
+    "C10": {
+        "mc": ["dec_framing", "dec_avprec", "dec_kinds", "dec_data", "dec_loop3", "dec_loop4"], "gen": ["chain"],
+        "rule": "decode -> encode -> strict decode -> encode chains from non-canonical accepted inputs (reserved bits, P/O "
+                "and version under lax options, unset M bit, reserved AVP bits, surplus payload, trailing octets) under "
+                "all option sets; TLC: Normalises on every accepted run of the decoder grammars",
+        "assumptions": COMMON_ASSUMPTIONS,
+    },
+    "C11": {
+        "mc": ["hid_hide"], "gen": ["hide_reveal", "reveal_plain"],
+        "rule": "all 39 kinds x secrets {empty,1,15,64 octets,...} x length paddings hitting 1..6 (thorough: ..63) blocks and "
+                "exact multiples of 16; directly and after encode/decode of the hidden AVP; TLC: RevealHide with a toy "
+                "hash over every plaintext length for 1..4 blocks and paddings 0..20",
+        "assumptions": COMMON_ASSUMPTIONS,
+    },
+    "C12": {
+        "mc": ["hid_hide"], "gen": ["hide", "hide_reveal", "reveal"],
+        "rule": "hidden values compared with RFC 2661 s4.3 computed by TLC with MD5 written in TLA+ (RFC 1321 vectors "
+                "assumed at load); block counts 1..8 (thorough: ..63); reveal of arbitrary hidden values likewise; "
+                "TLC: declarative definition = in-place loops, HiddenLength",
+        "assumptions": COMMON_ASSUMPTIONS + ["MD5 in TLC costs ~30 ms per block, so cases are chosen rather than many"],
+    },
+    "C13": {
+        "mc": ["hid_reveal"], "gen": ["reveal"],
+        "rule": "the reveal machine explored by TLC with the decrypted length field at every boundary against every value "
+                "size (each behaviour replayed with a crafted ciphertext), random values under wrong keys, empty and "
+                "misaligned values, every attribute-type class",
+        "assumptions": COMMON_ASSUMPTIONS + ["crafting adversarial ciphertexts uses the md5 crate; verdicts come from the TLA+ MD5"],
+    },
+    "C14": {
+        "mc": ["dec_flagsq", "dec_flagsall", "dec_framing"], "gen": ["flags"],
+        "rule": "flag words (quick: all T/L/S/O/P x 5 version nibbles x 9 reserved patterns + random; thorough: all 65 536) "
+                "followed by a matching control / data tail, decoded under all 8 option sets and the default entry in one "
+                "event: monotonicity and exactness on the implementation's own results and against the specification",
+        "assumptions": COMMON_ASSUMPTIONS + ["complete for the flag word in the thorough tier; tails are samples"],
+        "exhaustive_thorough": True,
+    },
+    "C15": {
+        "mc": ["dec_loop3", "dec_loop4", "dec_avprec", "dec_ctllen"], "gen": ["decode", "avps", "ctl_records"],
+        "rule": "all sequences of up to 3 (thorough: 4) records from 8 classes (valid Message Type, other valid, "
+                "undecodable, unknown type, vendor, hidden, length < 6, overrun) explored by TLC and replayed; random "
+                "assemblies of up to 12 good / bad records; error count and order, all-or-nothing",
+        "assumptions": COMMON_ASSUMPTIONS,
+    },
+    "C16": {
+        "mc": ["enums"], "gen": ["enum"],
+        "rule": "every 16-bit code of every enumerated field through the crate (one-AVP bodies, conversion API) and, "
+                "independently, through the specification (65 536 TLC states); every named value encoded",
+        "assumptions": COMMON_ASSUMPTIONS, "exhaustive": True,
+    },
+    "C17": {
+        "mc": ["enc_avps"], "gen": ["bitmask"],
+        "rule": "4 kinds x 4 constructor combinations (complete); wire words: all one-bit, all complements, two-bit with "
+                "bits 6/7/30/31, random; accessor = the bit learned from the constructor",
+        "assumptions": COMMON_ASSUMPTIONS + ["the 2^32 word space is sampled"],
+    },
+    "C18": {
+        "mc": ["reader_q", "reader_t", "writer_q", "writer_t"], "gen": ["cursor", "vecwriter"],
+        "rule": "every operation sequence of the cursor / buffer machines up to depth 3 (thorough: 4 / 5) explored by TLC "
+                "and replayed on SliceReader / VecWriter; long seeded random sequences",
+        "assumptions": COMMON_ASSUMPTIONS + ["unchecked reads are only issued when enabled in the model"],
+    },
+    "C19": {
+        "mc": ["session_q", "session_t"], "gen": ["threads", "decode", "encode", "chain", "roundtrip_ctl"],
+        "rule": "octets the worker process put on fd 1 / fd 2 around every call (measured per case); the same calls from 16 "
+                "threads at once, each result compared with the specification's function of its own arguments",
+        "assumptions": COMMON_ASSUMPTIONS + ["the harness itself prints nothing (panic hook silenced)"],
+    },
+    "C20": {
+        "mc": ["dec_kinds", "dec_avprec"], "gen": ["fault", "render"],
+        "rule": "single-fault injection into valid messages for each pinned error identity (the specification first "
+                "confirms the base is valid and the fault single); Display of every variant, for AVP-carrying variants "
+                "over attribute numbers (thorough: all 65 536)",
+        "assumptions": COMMON_ASSUMPTIONS,
     },
 }
+
+
+def _host_of(n):
+    return [(i * 7) % 256 for i in range(1, n + 1)]
 
 
 def catalog_cases(prop, model, replay):
     """turn the behaviours exported by a TLC model into cases for the implementation"""
     rdr = "all" if PROPS[prop].get("readers") == "all" else "slice"
     out = []
-    for r in replay:
-        mode = r.get("mode")
-        if mode == "msg":
-            out.append({"op": "decode", "in": r["in"], "opts": r["opts"], "entry": "validate", "rdr": rdr})
-        elif mode == "avps":
-            out.append({"op": "decode_avps", "in": r["in"], "rdr": rdr})
-        elif mode == "payload":
-            out.append({"op": "decode_payload", "t": r["t"], "in": r["in"], "rdr": rdr})
-        else:
-            continue
-        out[-1]["src"] = "tlc:" + model
-        out[-1]["exp"] = r.get("res")
+
+    def add(c):
+        c["src"] = "tlc:" + model
+        out.append(c)
+
+    for n, r in enumerate(replay):
+        if model.startswith("dec_flags"):
+            add({"op": "decode_opts", "in": r["in"]})
+        elif model.startswith("dec_"):
+            mode = r.get("mode")
+            if mode == "msg":
+                add({"op": "decode", "in": r["in"], "opts": r["opts"], "entry": "validate", "rdr": rdr})
+                if prop == "C10" and r.get("res") == "ok":
+                    add({"op": "chain", "in": r["in"], "opts": r["opts"]})
+                if prop == "C08" and r.get("res") == "ok":
+                    add({"op": "decode_suffix", "in": r["in"], "suffix": [n % 256, 7, 7], "opts": r["opts"], "entry": "validate"})
+            elif mode == "avps":
+                add({"op": "decode_avps", "in": r["in"], "rdr": rdr})
+            elif mode == "payload":
+                add({"op": "decode_payload", "t": r["t"], "in": r["in"], "rdr": rdr})
+        elif model.startswith("enc_"):
+            add({"op": "encode", "kind": r["kind"], "v": r["v"], "prefix": r["prefix"], "wr": "mon" if n % 2 else "vec"})
+            if not r["prefix"]:
+                add({"op": "roundtrip", "kind": r["kind"], "v": r["v"]})
+        elif model == "hid_reveal":
+            add({"op": "reveal", "t": r["t"], "plain": r["plain"], "secret": [5], "rv": [222, 173, 190, 239]})
+        elif model == "hid_hide":
+            if n % 7 == 0 or prop in ("C11",) and n % 3 == 0:     # MD5 in TLC is slow: a sample of the hide family
+                add({"op": "hide_reveal", "v": {"k": "HostName", "f": [_host_of(r["n"])]}, "secret": r["secret"],
+                     "rv": [222, 173, 190, 239], "lp": [255 - i for i in range(1, r["lp"] + 1)],
+                     "ap": [100 + i for i in range(1, 17)]})
+        elif model.startswith("reader_"):
+            add({"op": "cursor", "slice": r["slice"], "ops": r["ops"]})
+        elif model.startswith("writer_"):
+            add({"op": "vecwriter", "ops": r["ops"]})
+        elif model.startswith("session_"):
+            for buf, msgs in zip(r["bufs"], r["msgs"]):
+                add({"op": "decode_seq", "in": buf, "opts": [True, True, True], "entry": "validate", "max": 8})
+                add({"op": "encode_seq", "items": [{"kind": "msg", "v": m} for m in msgs]})
     return out
+
+
+def _is_control_input(ev):
+    b = ev.get("in") or []
+    return len(b) >= 1 and (b[0] & 1) == 1
 
 
 def owns(prop, ev, tag):
     """does failure `tag` on event `ev` contradict property `prop`?"""
     e = ev.get("e")
+    if tag == "io":
+        return prop == "C19"
+    if prop == "C19":
+        return "thread" in ev            # any wrong result on a thread
     if prop == "C01":
         return e in DECODE_EVENTS and (tag in DIED or tag == "empty-errors")
     if prop == "C02":
         return e in DECODE_EVENTS and tag in ("reader-contract", "reader-diff")
     if prop == "C05":
-        return e in ("decode", "decode_avps", "decode_payload") and (tag in DIED or tag in ("verdict", "value"))
+        return e in ("decode", "decode_avps", "decode_payload", "decode_opts") and "fault" not in ev \
+            and (tag in DIED or tag in ("verdict", "value"))
+    if prop == "C03":
+        return e == "roundtrip" and not (ev.get("kind") == "msg" and ev.get("v", {}).get("k") == "Data")
+    if prop == "C04":
+        return e == "roundtrip" and ev.get("kind") == "msg" and ev.get("v", {}).get("k") == "Data"
+    if prop == "C06":
+        return e in ("encode", "encode_seq", "roundtrip", "chain") and tag == "octets"
+    if prop == "C07":
+        return e in ("encode", "encode_seq", "roundtrip", "hide") and tag in (
+            "length-field", "get-length", "get-length-spec", "unexpected-panic", "oversize-accepted")
+    if prop == "C08":
+        if e in ("decode_seq", "decode_suffix", "avps_concat"):
+            return True
+        return e in ("decode", "decode_avps", "roundtrip") and tag == "rem"
+    if prop == "C09":
+        if e == "encode_seq":
+            return True
+        return e == "encode" and tag in ("prefix-changed", "patch-outside", "octets") and (
+            tag != "octets" or bool(ev.get("prefix")))
+    if prop == "C10":
+        return e == "chain"
+    if prop == "C11":
+        if e == "hide_reveal":
+            return tag in ("reveal-direct", "reveal-wire", "native-eq", "hide-of-hidden") or tag in DIED
+        return e == "reveal" and ev.get("v", {}).get("k") != "Hidden"
+    if prop == "C12":
+        if e == "hide":
+            return tag in ("hide-value", "hide-length", "hide-type", "hide-wire")
+        if e == "hide_reveal":
+            return tag in ("hide-value", "hide-wire")
+        return e == "reveal" and tag == "reveal-value"
+    if prop == "C13":
+        return e == "reveal" and ev.get("v", {}).get("k") == "Hidden"
+    if prop == "C14":
+        return e == "decode_opts"
+    if prop == "C15":
+        if e == "decode_avps":
+            return tag in ("value",) or tag in DIED
+        return e == "decode" and "fault" not in ev and _is_control_input(ev) and tag in (
+            "error-count", "empty-errors", "verdict", "value")
+    if prop == "C16":
+        return e in ("enum_map", "enum_names")
+    if prop == "C17":
+        return e == "bitmask"
+    if prop == "C18":
+        return e in ("cursor", "vecwriter")
+    if prop == "C20":
+        return e == "render" or (e == "decode" and "fault" in ev)
     return False
